@@ -166,6 +166,8 @@ func directedPool() []core.Value {
 		// any pooled buffer past its reset threshold
 		Obj("a", Obj(), "c", Arr()), Obj("a", Obj("x", I(1)), "c", Arr(I(1))), Arr(Arr(), Obj()),
 		S(strings.Repeat("xy", 3000)),
+		// already sorted, with duplicates (nothing to reorder: a function must still not hand out or edit the argument)
+		Arr(I(1), I(1), I(2), I(3), I(3), I(4)), Arr(S("a"), S("a"), S("b")),
 	}
 }
 
